@@ -374,7 +374,8 @@ class Run:
         for fid, text in sorted(self.known_hits.items()):
             print(f"KNOWN-FINDING: property={self.prop} {text} [{fid}]")
         seen = set()
-        for what, record, no_input in self.violations:
+        # violations that carry a concrete failing input are reported before broken obligations without one
+        for what, record, no_input in sorted(self.violations, key=lambda v: bool(v[2])):
             rec = dict(record)
             rec.update({"property": self.prop, "what": what, "seed": self.seed, "tier": self.tier})
             if self.build_failure:
